@@ -115,6 +115,7 @@ Annotate(k, x, t) ==
   /\ nfact' = nfact + 1
   /\ UNCHANGED <<phase, arena, parents, children, allp, ic, bmode>>
 
+(* HISTORICAL (before the repair of finding F4, see HpoReject.tla):          *)
 (* annotate_* on a term that does not exist: the record is still created    *)
 (* and gains the (dangling) term id, then the call returns DoesNotExist.   *)
 (* Named deviation from the ideal; outside the envelope of the properties  *)
